@@ -13,6 +13,7 @@ from gscrib import GCodeBuilder                # noqa: E402
 from gscrib.writers import FileWriter          # noqa: E402
 
 EMITS = {
+    "blank": (lambda g: g.write(""), ""),            # an empty statement is a (blank) line like any other
     "move": (lambda g: g.move(x=1.5), "G1 X1.5"),
     "comment": (lambda g: g.comment("é ü ∅"), "; é ü ∅"),
     "feed": (lambda g: g.set_feed_rate(100), "F100"),
@@ -185,8 +186,19 @@ class C14System:
                         P.append(("writer-still-registered-after-teardown", f"{n} still receives lines after teardown"))
         return P
 
+    def real_registry(self, st):
+        """What the builder itself says is registered (public get_writer), as writer names."""
+        names = {id(w): n for n, w in st.writers.items()}
+        out, i = [], 0
+        while True:
+            try:
+                out.append(names.get(id(st.g.get_writer(i)), "?"))
+            except IndexError:
+                return tuple(out)
+            i += 1
+
     def canon(self, st):
-        return (tuple(st.registry), tuple((n, st.open[n], digest(st.log[n]), digest(st.session[n])) for n in self.names), st.emits)
+        return (tuple(st.registry), self.real_registry(st), tuple((n, st.open[n], digest(st.log[n]), digest(st.session[n])) for n in self.names), st.emits)
 
     def outcome(self, st):
         return (tuple(st.registry), st.emits, type(st.last_exc).__name__ if st.last_exc else None)
@@ -202,7 +214,7 @@ ASSUMPTIONS = ["not demanded: that teardown pushes a caller-owned buffered file 
 
 def systems(tier):
     if tier == "quick":
-        return [("lf-4writers", C14System(["pathA", "text", "rec1", "rec2"], "\\n", 2), 6, None),
+        return [("lf-4writers", C14System(["pathA", "text", "rec1", "rec2"], "\\n", 2), 5, None),
                 ("crlf-3writers", C14System(["rec1", "pathA", "binary"], "\\r\\n", 2), 5, None),
                 ("output-option", C14System(["cfgpath", "rec1"], "\\n", 2), 5, None)]
     return [("lf-5writers", C14System(["pathA", "pathB", "text", "rec1", "rec2"], "\\n", 3), 6, None),
